@@ -1,4 +1,5 @@
 import Rsp.Model.Ttl
+import Rsp.Generated.Facts
 import Rsp.Spec.Ttl
 import Rsp.Spec.Choose
 import Rsp.Spec.Addr
@@ -463,6 +464,25 @@ def dynfindSpec (cmd id1 id2 : Bytes) (impl : List String) : String :=
     dynSpec cmd id2 ((t2.drop 1).map fun t => if t.startsWith "sarg:" then (t.drop 1).toString else t) alts
   | _ => "bad output-shape"
 
+/-- `T<type>,<rc>,<ri>` / `B<type>,<rc>,<ri>` of the dynconf op: "-" and 255 mean "not set" -/
+def parseTB (s : String) : Option (Option Nat × Option Nat × Option Nat) :=
+  let f (t : String) : Option (Option Nat) := if t = "-" then some none else t.toNat?.map fun n => if n = 255 then none else some n
+  match ((s.drop 1).toString.splitOn ",").mapM f with
+  | some [a, b, c] => some (a, b, c)
+  | _ => none
+
+/-- type, RetryCount and RetryInterval a discovered server ends up with: what its block says, else what the template block says,
+    else the transport's default (the regenerated protocol tables: default count, max count, default interval, max interval, …) -/
+def dynRetry (T B : String) : Option (Nat × Nat × Nat) :=
+  match parseTB T, parseTB B with
+  | some (some tt, trc, tri), some (_, brc, bri) =>
+    let tab := if tt = 2 then Rsp.Generated.protodefs_tcp else if tt = 3 then Rsp.Generated.protodefs_dtls else none
+    tab.bind fun tab =>
+      match tab with
+      | [rcd, _, rid, _, _] => some (tt, (brc.orElse fun _ => trc).getD rcd, (bri.orElse fun _ => tri).getD rid)
+      | _ => none
+  | _, _ => none
+
 def model (op : String) (args : List String) : String :=
   match op, args with
   | "dynfind", [c, i, j] =>
@@ -510,6 +530,12 @@ def model (op : String) (args : List String) : String :=
         | _ => "-"
       s!"secret:{toHex sec} len={sec.length} pkt:{pkt}"
     | _, _, _ => "bad-op"
+  | "dynconf", [tsec, id, blk, dsec, T, B] =>
+    let base := model "dynconf" [tsec, id, blk, dsec]
+    if base = "none" || base = "bad-op" then base else
+    match dynRetry T B with
+    | some (t, rc, ri) => base ++ s!" type={t} rc={rc} ri={ri}"
+    | none => "bad-op"
   | "addreq", [_, a, pa, b, pb] =>
     match ofHex a, pa.toNat?, ofHex b, pb.toNat? with
     | some a, some pa, some b, some pb => if Addr.addrEqual a pa b pb then "1" else "0"
@@ -611,6 +637,20 @@ def spec (op : String) (args impl : List String) : String :=
            | none => "bad C06:request-to-a-discovered-server-could-not-be-built")
        | _ => "bad output-shape")
     | _, _, _ => "bad-op"
+  | "dynconf", [tsec, id, blk, dsec, T, B], impl =>
+    if impl.any (·.startsWith "crash") then "bad sanitizer-or-crash" else
+    if impl == ["none"] then spec "dynconf" [tsec, id, blk, dsec] impl else
+    let v := spec "dynconf" [tsec, id, blk, dsec] (impl.take 3)
+    if v ≠ "ok" then v else
+    -- C12: a discovered server is retried as ITS configuration says: the printed block's RetryCount/RetryInterval where it sets them,
+    -- else the template block's, else the transport's defaults
+    (match dynRetry T B, impl.drop 3 with
+     | some (t, rc, ri), [a, b, c] =>
+       if a != s!"type={t}" then "bad C12:discovered-server-has-another-transport-than-configured"
+       else if b != s!"rc={rc}" then "bad C12:discovered-server-RetryCount-not-as-configured:" ++ b ++ s!"-expected-{rc}"
+       else if c != s!"ri={ri}" then "bad C12:discovered-server-RetryInterval-not-as-configured:" ++ c ++ s!"-expected-{ri}"
+       else "ok"
+     | _, _ => "bad output-shape")
   | "connstate", [_, st, _], [r, _] =>
     match st.toNat? with
     | some st =>
